@@ -3,7 +3,7 @@
    map to OCaml's; nat stays the extracted unary datatype.  No Extract Constant. *)
 Require Extraction.
 Require Import ExtrOcamlBasic.
-From LV Require Import Cst Tree ABuild Runtime Exec Sema Compile Cli DiagMono FirstSpec FirstCert FollowSpec RecoverySpec.
+From LV Require Import Cst Tree ABuild Runtime Exec Sema Compile Cli DiagMono FirstSpec FirstCert FollowSpec RecoverySpec Scoped.
 Extraction Blacklist List String Int.
 Extraction "../ocaml/model.ml"
   c_step g_step run_history c_children c_span c_get c_mark c_close_root
@@ -11,4 +11,4 @@ Extraction "../ocaml/model.ml"
   parse_entry exec call_fn init_state a_close_root ghost_empty
   analyse Cli.run all_rows prog_ok
   wf_ids_b productive_b first_closed fol_closed recovery_cert p_peek p_peek_left
-  compile all_msg_sets.
+  compile all_msg_sets prog_scoped.
